@@ -22,7 +22,7 @@ ENTRIES = {
     ".rs": "file", "n1/.rs": "file", "..rs": "file", ".rsx": "file", "rs": "file",      # a name that is only an extension has no extension
     "a.rs.tmp": "file", "a.rs~": "file", "é.rs.tmp": "symlink->outside/o.rs", "sp ace.rs.tmp": "dirsymlink->outside",
 }
-EXT_LISTS = {"omitted": None, "[rs]": ["rs"], "[rs,rsx]": ["rs", "rsx"], "[RS]": ["RS"], "[txt]": ["txt"]}
+EXT_LISTS = {"omitted": None, "[rs]": ["rs"], "[rs,rsx]": ["rs", "rsx"], "[RS]": ["RS"], "[txt]": ["txt"], "[rs,rs]": ["rs", "rs"]}
 SRC_FORMS = ["./src", "src", "ABS", "./src/", "src/../src", "ABS/", "LINK"]     # LINK: source_dir names a symbolic link to the directory
 CFG_FORMS = ["relative", "absolute"]
 CWDS = ["config-dir", "parent", "unrelated"]
@@ -92,7 +92,7 @@ def _job(args):
         reported = sorted({os.path.normpath(os.path.join(cwd, f)) if not os.path.isabs(f) else os.path.normpath(f) for f, _, _ in rep.missing})
         res.append((subset, en, sf, cf, cw, check, r.exit, r.signal, r.panicked,
                     [(k, a is None, b is None) for k, a, b in diff if not ((a or b)[0] == "d" and a is not None and b is not None)],
-                    [os.path.relpath(src + p[len(os.path.join(proj, "srclink")):] if p.startswith(os.path.join(proj, "srclink") + "/") else p, src) for p in reported], sorted(os.listdir(tmp)), r.stdout[-600:]))
+                    [os.path.relpath(src + p[len(os.path.join(proj, "srclink")):] if p.startswith(os.path.join(proj, "srclink") + "/") else p, src) for p in reported], sorted(os.listdir(tmp)), r.stdout[-600:], rep.total))
         shutil.rmtree(root, ignore_errors=True)
         shutil.rmtree(tmp, ignore_errors=True)
     return res
@@ -245,7 +245,7 @@ def run(tier, v):
         batches.append((alljobs[k:k + 60], w))
     with multiprocessing.Pool(NCPU) as pool:
         for res in pool.imap_unordered(_job, batches):
-            for subset, en, sf, cf, cw, check, ex, sig, panicked, diff, reported, tmp_left, out in res:
+            for subset, en, sf, cf, cw, check, ex, sig, panicked, diff, reported, tmp_left, out, total in res:
                 v.count()
                 v.distinct((subset, en, sf, cf, cw, check))
                 want = expected_in_scope(subset, EXT_LISTS[en])
@@ -263,6 +263,8 @@ def run(tier, v):
                         bad.append("check-changed-something")
                     if sorted(reported) != want:
                         bad.append("check-reported-files-differ-from-scope")
+                    elif total is not None and total != len(want):
+                        bad.append("check-total-differs-from-number-of-in-scope-statements")      # every in-scope file holds exactly one
                     if (ex != 0) != bool(want) and want:
                         bad.append("check-exit-status")
                 else:
